@@ -98,8 +98,15 @@ def run(c, need):
         states=res["model"]["distinct"] + res["distinct"], transitions=res["model"]["generated"] + res["distinct"],
         traces_validated_against_impl=st.get("nodes", 0), sweep_model=res["model"]["configs"], trace_states=res["distinct"],
         antecedents=st, shared_log_cached=was_cached,
-        rule="every node of the recorded tree log (seeded multi-actor behaviours over 6 decimal/fee configurations + bounded "
-             "breadth-first exploration of a fixed action-instance set on CacheContext branches) is one TLC state of Trace_Harbor; "
+        predicted_actions=["Create", "Deposit", "Withdraw (incl. emergency-shutdown cool-off)", "Draw", "Repay", "Close", "DepositDraw", "SCreate", "SDeposit", "SWithdraw",
+                           "Block: V2 vault sweep (Sweep.tla)", "V1Sweep (Sweep.tla)", "V1Liquidate", "V1Bid (relation)", "V1Tick outside shutdown", "EsmDeposit", "EsmExecute"],
+        unpredicted_actions=["Liquidate / LiqExt / Bid / Reserve (V2 messages: monitored by the C09/C10 formulas)", "Block: V2 auction tick and settlement, esm begin blocker stages, V2 TriggerEsm",
+                             "V1Tick under emergency shutdown (close-out)", "EsmRedeem", "InterestCalc and vault steps in configurations with stability-fee accrual (interest is an environment value)"],
+        rule="every node of the recorded tree log (seeded multi-actor behaviours over 8 decimal/fee configurations incl. V1-biased and emergency-shutdown-biased runs + bounded "
+             "breadth-first explorations of fixed action-instance sets on CacheContext branches: vault model action set, first-generation liquidation/auction, emergency shutdown with and "
+             "without a stable-mint vault; MC_Sweep behaviours replayed on the V2 and the V1 sweep) is one TLC state of Trace_Harbor; "
              "formulas are evaluated on (pre-state, step, post-state) of the real keepers"),
         assumptions=["signatures/ante chain out of scope: signer = message's From", "oracle prices injected with MarketKeeper.SetTwa (environment action Price)",
-                     "kill switch toggled through the esm keeper setter (admin check is C12)"])
+                     "kill switch toggled through the esm keeper setter (admin check is C12)",
+                     "V1 begin blockers (x/liquidation, x/auction) are not wired in app.go: called directly as environment actions V1Sweep / V1Tick, like the repository's tests",
+                     "emergency-shutdown redemption relations (pay-out within the pro-rata share) are monitored in the antecedent counters only: no property of this family demands them"])
